@@ -1535,23 +1535,78 @@ def truncation_table(prog):
     return out
 
 
+def _module_of(root):
+    """module part of a function path: the leading snake_case segments (types are CamelCase); `<T as Trait>::f` -> module of T"""
+    r = root
+    if r.startswith("<"):
+        r = r[1:].split(" as ")[0]
+    r = mir.strip_generics(r)
+    segs = []
+    for seg in r.split("::"):
+        if seg and (seg[0].islower() or seg[0] == "_") and "{" not in seg:
+            segs.append(seg)
+        else:
+            break
+    # the last lowercase segment of a free function is the function itself
+    if len(segs) == len([x for x in r.split("::") if x]) and segs:
+        segs = segs[:-1]
+    return "::".join(segs)
+
+
+def early_exit_counts(prog):
+    """{root fn: number of early exits (break / return / `?` edges) of loops that act on outside state}"""
+    out = {}
+    for d, b in prog.bodies.items():
+        if b.generated or not d.startswith("alpenglow::") or "::tests::" in d:
+            continue
+        root = K.fshort(d.split("::{closure")[0])
+        n = 0
+        for h, early, eff in early_exit_loops(prog, b):
+            n += len(early)
+        if n:
+            out[root] = out.get(root, 0) + n
+    return out
+
+
 def ob_no_new_truncation(run, oid, prefixes, why):
-    """sequences are processed whole: a function uses a truncating adapter (take / take_while / skip / map_while / step_by / nth / truncate / split_off /
-    drain) at most as often as on the reviewed tree (rules/truncation_table.json)"""
+    """sequences are processed whole: a module uses a truncating adapter (take / take_while / skip / map_while / step_by / nth / truncate / split_off /
+    drain) at most as often as on the reviewed tree (rules/truncation_table.json). Counted per module, so that inlining / extracting a helper moves nothing;
+    a `for .. { if c { break } .. }` loop that was reviewed as leaving early (rules/loop_review.py) may be respelled with take_while / map_while / skip_while."""
+    from . import loop_review
     prog = run.program("lib")
     tab = json.load(open(os.path.join(os.path.dirname(os.path.abspath(__file__)), "truncation_table.json")))
     o = run.ob(oid, "no new truncation of a sequence (take / take_while / skip / map_while / step_by / nth / truncate / split_off / drain) in the property's modules", why, floor=1)
     cur = truncation_table(prog)
+
+    def by_module(t):
+        out = {}
+        for root, ads in t.items():
+            m = _module_of(root)
+            for ad, k in ads.items():
+                out.setdefault(m, {})
+                out[m][ad] = out[m].get(ad, 0) + k
+        return out
+    cm, rm = by_module(cur), by_module({k_: v_ for k_, v_ in tab.items() if not k_.startswith("__")})
+    # early exits that disappeared from a function (reviewed number of break / return / `?` edges out of effectful loops - current number): budget for while-style adapters
+    rev_exits = tab.get("__early_exits__", {})
+    cur_exits = early_exit_counts(prog)
     n = 0
-    for root, ads in sorted(cur.items()):
-        if not any(root.startswith(p) for p in prefixes):
+    for m, ads in sorted(cm.items()):
+        if not any((m + "::").startswith(p if p.endswith("::") else p + "::") or m == p.rstrip(":") or m.startswith(p) for p in prefixes):
             continue
         for ad, k in sorted(ads.items()):
             n += 1
-            w = tab.get(root, {}).get(ad, 0)
-            o.check(k <= w, "%s|%s" % (root, ad), "%s uses .%s() %d time(s) (reviewed: %d)" % (root, ad, k, w), "", {"now": k, "reviewed": w},
-                    fail_what="%s cuts a sequence short with a new .%s() (%d use(s), reviewed %d): elements behind the cut are not processed" % (root, ad, k, w))
-    o.ok("scanned", "%d (function, adapter) pairs in %s" % (n, ", ".join(prefixes)), "", nontrivial=True)
+            w = rm.get(m, {}).get(ad, 0)
+            budget = 0
+            if ad in ("take_while", "map_while", "skip_while"):
+                for root, cnt in rev_exits.items():
+                    if _module_of(root) == m:
+                        budget += max(0, cnt - cur_exits.get(root, 0))
+            culprits = sorted(r for r, a2 in cur.items() if _module_of(r) == m and a2.get(ad, 0) > (tab.get(r) or {}).get(ad, 0))
+            o.check(k <= w + budget, "%s|%s" % (culprits[0] if culprits and k > w + budget else m, ad), "module %s uses .%s() %d time(s) (reviewed: %d%s)" % (m, ad, k, w, ", +%d for respelled early-exit loops" % budget if budget else ""), "",
+                    {"now": k, "reviewed": w, "functions": culprits[:3]},
+                    fail_what="%s cuts a sequence short with a new .%s() (module %s: %d use(s), reviewed %d): elements behind the cut are not processed" % (", ".join(culprits[:2]) or m, ad, m, k, w))
+    o.ok("scanned", "%d (module, adapter) pairs in %s" % (n, ", ".join(prefixes)), "", nontrivial=True)
     return o
 
 
